@@ -15,7 +15,7 @@ import (
 )
 
 func genWCase(t *rapid.T, maxLen int, clock bool) WCase {
-	kinds := []string{"start", "start", "start", "start", "start", "cancel", "cancel", "put", "put", "putmany", "putmany", "casok", "casok", "casbad", "delete", "delete", "create", "create"}
+	kinds := []string{"start", "start", "start", "start", "start", "ungate", "ungate", "cancel", "cancel", "put", "put", "putmany", "putmany", "casok", "casok", "casbad", "delete", "delete", "create", "create"}
 	if clock {
 		kinds = append(kinds, "advance")
 	}
@@ -27,7 +27,8 @@ func genWCase(t *rapid.T, maxLen int, clock bool) WCase {
 		case "start":
 			op.Ver = rapid.SampledFrom([]int{0, 0, 0, 0, 1, 2}).Draw(t, "ver")
 			op.Pre = rapid.IntRange(0, 9).Draw(t, "pre") == 0
-		case "cancel":
+			op.Gate = rapid.IntRange(0, 3).Draw(t, "gate") == 0
+		case "cancel", "ungate":
 			op.W = rapid.IntRange(0, 3).Draw(t, "w")
 		case "putmany":
 			op.Two = rapid.Bool().Draw(t, "two")
@@ -52,7 +53,7 @@ func recordC07(c WCase, info WInfo, env string) {
 func RunC07Inmem(t *testing.T, c WCase) (info WInfo, v *vstat.Violation) {
 	synctest.Test(t, func(*testing.T) {
 		st := inmem.New()
-		env := &WEnv{Name: "inmem", St: st, Now: time.Now, Advance: time.Sleep,
+		env := &WEnv{Name: "inmem", St: st, Now: time.Now, Advance: time.Sleep, Gates: true,
 			Settle: func([]chan struct{}) bool { synctest.Wait(); return true },
 			Table:  func() (int, int, bool) { return waiterTable(st) }}
 		info, v = RunWait(c, env)
